@@ -148,6 +148,9 @@ def cases(tier):
                     yield (prog, cfgname, {k: kind})
                 if cfgname == "default":
                     yield (prog, cfgname, {k: "exc"}, True)
+                    # the raised exception cannot be described (its __str__ raises): behave formats the exception
+                    # inside run_hook's except clause
+                    yield (prog, cfgname, {k: "undesc"})
 
 
 def cleanup_then_fault_cases(tier):
